@@ -141,9 +141,10 @@ class Sort(Part):
             m = case["m"]
             pools = [absx.monotone_map(rng, rng.randint(2, 5)) for _ in range(m)]
             inds = []
+            mstyle_r = rng.randrange(3)
             for k in range(case["n"]):
                 ind = Individual([float(k)])
-                ind.costs_signed = [rng.choice(p) for p in pools] + [rng.random() < 0.25]
+                ind.costs_signed = [rng.choice(p) for p in pools] + [absx.concrete_marker(rng, rng.choice([0, 0, 0, 0, 0, 1, -1, 1, -1, 2, -2]), mstyle_r)]
                 inds.append(ind)
             return [sort_event(inds, rng)]
         return self.nsga2(rng, case)
